@@ -42,19 +42,27 @@ pub unsafe fn fill_random(buf: *mut u8, len: usize) {
         st = 0x5EED_0000_0000_0001;
     }
     let mut i = 0;
+    // Threads the simulator started run one at a time, so the order in which their keys enter the digest is part
+    // of the schedule. Threads the code under test started itself run in parallel with one another: each of them is
+    // served the same fixed stream, and the order of their calls is not the simulator's to decide, so their bytes
+    // stay out of the digest (they are counted instead).
     let mut digest = GETRANDOM_DIGEST.load(Ordering::SeqCst);
     while i < len {
         let v = splitmix64(&mut st).to_le_bytes();
         for b in v.iter() {
             if i < len {
                 *buf.add(i) = *b;
-                digest = fnv_mix(digest, &[*b]);
+                if set {
+                    digest = fnv_mix(digest, &[*b]);
+                }
                 i += 1;
             }
         }
     }
-    GETRANDOM_DIGEST.store(digest, Ordering::SeqCst);
-    HASH_STREAM.with(|c| c.set((st, true)));
+    if set {
+        GETRANDOM_DIGEST.store(digest, Ordering::SeqCst);
+        HASH_STREAM.with(|c| c.set((st, true)));
+    }
 }
 
 // ---------------------------------------------------------------------------------------
